@@ -48,7 +48,7 @@ ASSUMPTIONS = ["the space is copied together with the agents in it and their mod
 RULE = ("a random C06 history (grids of 1-3 axes incl. hex, networks, Voronoi; capacities) plus extra property layers, then "
         "copy deepcopy|pickle, then 4-14 further operations / queries addressed at random to the original or the copy "
         "(placing, moving, removing, new agents, layer writes through cells, fills, layer add/del, neighbourhood and connection "
-        "queries, a second-generation copy in thorough); non-trivial = the copy holds at least one agent and at least one "
+        "queries, CellCollection queries incl. random picks, a second-generation copy in thorough); non-trivial = the copy holds at least one agent and at least one "
         "state-changing operation was applied to each side afterwards; distinct by sha1 of op lines.  30 % of the scenarios are "
         "AgentSet histories (harness/c19_sets.py): 1-2 models, agents, 1-2 sets, set / agent operations, one or two copies (of the "
         "original or of a copy), then operations on either family, every set read back after every operation.  20 % are occupancy "
@@ -352,6 +352,8 @@ def oracle(sc, obs):
             part = next((n for n, a, b in zip(("dump", "connections", "capacities", "layers"), before, after) if a != b), "?")
             bad.append(f"detached-frame: '{op}' on side {side} changed the {part} of the other side")
     for l, o in zip(sc.lines, obs):
+        if "INCONSISTENT" in o:
+            bad.append(f"copy-collection: '{l}': a cell collection of that side does not carry the side's generator / live agent lists ({o.split('INCONSISTENT:')[-1]})")
         if "MISMATCH" in o:
             bad.append(f"one-value: '{l}': the cell attribute and the layer array disagree ({o})")
         if o.startswith("err Descriptor"):
@@ -414,11 +416,15 @@ def generate(rng, tier, count):
                 return f"{prefix}remove {a}"
             if j < 0.75:
                 return f"{prefix}new {R.choice(['cell', 'cell', 'fixed'])}"
-            if j < 0.85:
+            if j < 0.82:
                 return f"{prefix}nbhd {R.choice(names)} {R.randint(1, 2)} {R.randint(0, 1)}"
-            if j < 0.92:
+            if j < 0.87:
                 return f"{prefix}conns {R.choice(names)}"
-            return f"{prefix}nbagents {R.choice(names)} {R.randint(1, 2)} {R.randint(0, 1)}"
+            if j < 0.92:
+                return f"{prefix}nbagents {R.choice(names)} {R.randint(1, 2)} {R.randint(0, 1)}"
+            # the CellCollection API on that side (all_cells / empties / neighbourhoods, selections, random picks): the
+            # collections of a copy must hold the copy's live agent lists and the copy's generator
+            return prefix + C.gen_coll(R, h, names).rstrip()
 
         # agent indices are per side after the copy (both sides start with the same agents)
         count_side = {"o": n_agents, "c": n_agents}
@@ -479,7 +485,8 @@ def tags(sc, obs):
         if ws[0] == "copy2":
             yield "copy2:" + ws[1] + ":of-" + ws[2]
         if ws[0] in ("o", "c", "d"):
-            yield f"side-{ws[0]}:{ws[1]}" + (":" + ws[2] if ws[1] == "layer" else "") + (":" + o.split()[1] if o.startswith("err") else "")
+            yield (f"side-{ws[0]}:{ws[1]}" + (":" + ws[2] if ws[1] == "layer" else "") + (":" + ws[3] if ws[1] == "coll" and len(ws) > 3 else "")
+                   + (":" + o.split()[1] if o.startswith("err") else ""))
 
 
 def extra(ctx):
